@@ -116,6 +116,16 @@ def _call_items(prog, g, t, depth):
     last = c.rsplit("::", 1)[-1]
     Rg = None
     cap = _capture_index(g) if g.kind == "Closure" else {}
+    if last == "contains" and len(args) == 2 and c not in prog.fns:
+        # NAMES.contains(&p.name): the names are the elements of the receiver
+        consts = _array_consts(args[0])
+        if consts:
+            return list(consts)
+        v = _value_item(g, cap, args[0])
+        if isinstance(v, tuple) and v[0] == "cap":
+            return [("capelems", v[1])]
+        if isinstance(v, tuple) and v[0] == "param":
+            return [("elems", v[1])]
     if last in ITER_QUERIES and args and c not in prog.fns:
         cl = [x for a in args[1:] for x in [strip(a)] if x[0] == "agg" and x[1][0] == "closure"]
         if not cl:
@@ -126,7 +136,12 @@ def _call_items(prog, g, t, depth):
             return None
         out = []
         for item in _body_items(prog, h, depth):
-            if isinstance(item, tuple) and item[0] == "cap":
+            if isinstance(item, tuple) and item[0] == "capelems":
+                w = cops[item[1]] if item[1] < len(cops) else None
+                consts = _array_consts(w) if w is not None else None
+                if consts:
+                    out.extend(consts)
+            elif isinstance(item, tuple) and item[0] == "cap":
                 w = cops[item[1]] if item[1] < len(cops) else None
                 v = _value_item(g, cap, w) if w is not None else None
                 if v is not None:
